@@ -66,6 +66,7 @@ type Run struct {
 	inQuant    int
 	stores     map[string]storeRec
 	allocs     map[string]bool
+	lockSnap   map[string]*State
 	constCell  map[string]*Val // cell address -> the single value ever stored (write-once variables)
 	constCand  map[string]bool
 }
@@ -80,7 +81,7 @@ func newRun(e *Engine, fn *ssa.Function) *Run {
 		kindIDs: map[string]int{}, loadMemo: map[string]string{}, strLits: map[string]string{}, tagIDs: map[string]int{},
 		top: fn, instCount: map[string]int{}, notes: map[string]bool{}, inlined: map[string]bool{}, usedSpecs: map[string]bool{},
 		assumes: map[string]bool{}, names: map[string]string{}, oblNames: map[string]int{}, ifaceImpl: map[string]bool{},
-		usedAts: map[string]bool{}, defaulted: map[string]bool{}, spawned: map[string]bool{}, stores: map[string]storeRec{}, allocs: map[string]bool{}, constCell: map[string]*Val{}, constCand: map[string]bool{}}
+		usedAts: map[string]bool{}, defaulted: map[string]bool{}, spawned: map[string]bool{}, stores: map[string]storeRec{}, allocs: map[string]bool{}, constCell: map[string]*Val{}, constCand: map[string]bool{}, lockSnap: map[string]*State{}}
 	if fn != nil {
 		r.topName = e.funcName(fn)
 	}
@@ -246,6 +247,7 @@ type Frame struct {
 	parent   *Frame
 	panics   []*State
 	loopFrames map[*ssa.BasicBlock][]loopFrameRec
+	curRet     string // return site whose deferred calls are being run
 }
 
 type loopFrameRec struct {
@@ -575,7 +577,7 @@ func (r *Run) execFunc(fr *Frame, st *State, args []Val, binds []Val) execResult
 	for i, fv := range fn.FreeVars {
 		if i < len(binds) {
 			fr.vals[fv] = binds[i]
-			fr.names[fv.Name()] = binds[i]
+			fr.names["&"+fv.Name()] = binds[i]
 		}
 	}
 	fr.entry = st.clone()
